@@ -193,6 +193,8 @@ def run(ctx):
     r = ctx.model_check(t, cf, workers=8, coverage=True, label="Davidson loop", timeout=600)
     ctx.check_coverage(r, ["Iterate", "Return"])
     ctx.check_proof("Davidson_proofs")         # Bounded, ReturnsBest, Terminates for every size / budget
+    from vlib import resulthistory
+    resulthistory.replay(ctx, ["symeig:exact", "symeig:davidson", "svd"], "eig")
     c2 = dict(base)
     c2["KeepBest"] = False
     t, cf = tlcmod.gen_mc(ctx.work, "Davidson", "MC_Dav_dev", c2, invariants=["ReturnsBest"])
